@@ -744,12 +744,27 @@ func runInterleave(r *vs.Rand, i int, seed uint64, out *vs.Out) {
 		}
 	}
 	other := w.sim.GetObj(parentGroup, cfg.parentResource(), nsOfKey(sc.key), "p2")
+	// orphans (no owner reference at all): the candidates of an adoption, which races with other adopters
+	var orphans []ref
+	for _, k := range kids {
+		if o := w.sim.GetObj(k.c.group(), k.c.Resource, k.ns, k.name); o != nil {
+			if refs, _ := o["metadata"].(map[string]interface{})["ownerReferences"].([]interface{}); len(refs) == 0 {
+				orphans = append(orphans, k)
+			}
+		}
+	}
 	act := func(s *vs.Sim) {
 		if len(kids) == 0 {
 			return
 		}
 		k := kids[r.Intn(len(kids))]
-		switch r.Intn(10) {
+		choice := r.Intn(10)
+		if len(orphans) > 0 && r.Chance(35) {
+			// aimed at an adoption: the orphan is taken by the other parent, deleted, replaced or relabelled meanwhile
+			k = orphans[r.Intn(len(orphans))]
+			choice = []int{2, 2, 0, 1, 3}[r.Intn(5)]
+		}
+		switch choice {
 		case 9: // somebody else overwrites the parent's status
 			s.Mutate(parentGroup, cfg.parentResource(), nsOfKey(sc.key), "p1", func(o map[string]interface{}) {
 				o["status"] = map[string]interface{}{"replicas": int64(99), "observedGeneration": int64(1)}
